@@ -1,0 +1,12 @@
+//go:build verif
+
+package vaxis
+
+// VerifC12SetStyledUnderlines sets the styled-underlines capability as a terminal's XTGETTCAP Smulx
+// (or DA3 ~VTE) reply would; used to render inside the embedded emulator, which implements 4:n and
+// 58:… without advertising them.
+func (vx *Vaxis) VerifC12SetStyledUnderlines(b bool) {
+	vx.mu.Lock()
+	vx.caps.styledUnderlines = b
+	vx.mu.Unlock()
+}
